@@ -86,6 +86,35 @@ def layout_score(h):
     return score
 
 
+def layout_traits(h):
+    """odd: a stored domain starts between samples (writer opened before its first sample);
+    multi: one writer wrote several times (file rollover with a small file cap => a
+    continuation domain that starts one nanosecond after the previous sample)."""
+    st = h[-1]["st"]
+    odd = any(d[0] % 2 == 1 for ch in ("I", "D", "V") for d in st["dm"][ch])
+    commits = {}   # writer -> number of commits that carried data since it was opened
+    auto = {}
+    pending = {}
+    multi = False
+    for x in h:
+        if x["res"] != "ok":
+            continue
+        w = x["args"].get("w") if isinstance(x.get("args"), dict) else None
+        if x["a"] == "open":
+            commits[w], auto[w], pending[w] = 0, x["args"]["auto"], False
+        elif x["a"] == "write":
+            if auto.get(w):
+                commits[w] = commits.get(w, 0) + 1
+            else:
+                pending[w] = True
+        elif x["a"] == "commit" and pending.get(w):
+            commits[w] = commits.get(w, 0) + 1
+            pending[w] = False
+        if w is not None and commits.get(w, 0) > 1:
+            multi = True
+    return odd, multi
+
+
 def gen_layouts(ctx, thorough):
     """Store scripts from CesiumStoreGen (simulation): with deletes, with early writer starts, both.
     Every prefix of a generated script is a script too, so each walk yields several layouts."""
@@ -120,7 +149,7 @@ def gen_layouts(ctx, thorough):
                 p = h[:n]
                 if not any(v for ch in ("D", "V") for v in p[-1]["st"]["cm"][ch].values()):
                     continue
-                k = layout_key(p)
+                k = layout_key(p) + json.dumps(layout_traits(p))
                 if k not in best or len(best[k][2]) > n:
                     best[k] = (layout_score(p), tag, p)
                 got += 1
@@ -130,7 +159,17 @@ def gen_layouts(ctx, thorough):
     rnd = random.Random(ctx.seed)
     rnd.shuffle(uniq)
     uniq.sort(key=lambda x: -x[0])
-    return T, uniq
+    # interleave three strata so that the first n always hold inexact domain starts and rollover candidates
+    strata = [[], [], []]
+    for u in uniq:
+        odd, multi = layout_traits(u[2])
+        strata[0 if odd else 1 if multi else 2].append(u)
+    out = []
+    while any(strata):
+        for st in strata:
+            if st:
+                out.append(st.pop(0))
+    return T, out
 
 
 # ------------------------------------------------------------------ command sequences
@@ -168,7 +207,7 @@ def sweep_seqs(seqs):
 def conc_for(seed, i):
     rnd = random.Random(seed * 1000003 + i)
     return {"tsmap": rnd.randrange(3), "dtype": rnd.randrange(4), "vtype": rnd.randrange(3),
-            "filecap": rnd.choice([0, 64, 40, 17, 200]), "persist": rnd.randrange(3), "gcthresh": rnd.randrange(2), "iter": 0,
+            "filecap": rnd.choice([0, 5, 9, 17, 5, 40]), "persist": rnd.randrange(3), "gcthresh": rnd.randrange(2), "iter": 0,
             "noempty": True}   # sample identities are decoded from the bytes: no zero-length variable samples
 
 
@@ -214,6 +253,10 @@ def run_harness(ctx, jobs, tag, workers=6, timeout=1500):
     if rc != 0 or not summ:
         raise vlib.Inconclusive("iterator harness failed rc=%s:\n%s" % (rc, text[-3000:]))
     lays = {r["v"]["layout"]: r["v"] for r in rows if r.get("kind") == "layout"}
+    for l in lays.values():   # Go encodes empty slices as null
+        for fld in ("samples", "pointers"):
+            l[fld] = {ch: ((l.get(fld) or {}).get(ch) or []) for ch in ("I", "D", "V")}
+        l["points"] = l.get("points") or []
     traces = [r["v"] for r in rows if r.get("kind") == "trace"]
     return summ[0], lays, traces, wall
 
@@ -221,7 +264,7 @@ def run_harness(ctx, jobs, tag, workers=6, timeout=1500):
 # ------------------------------------------------------------------ traces -> TLC events
 def to_events(trace, lay, tid):
     """Rank-compress every timestamp of one recorded trace; cut at a panic / hang event."""
-    samples = lay["samples"][trace["chan"]]
+    samples = lay["samples"][trace["chan"]] or []
     evs = []
     for e in trace["events"]:
         if e.get("panic") or e.get("hang") or e.get("guard") or (e["c"] == "open" and e.get("err", "").startswith("open:")):
@@ -362,6 +405,8 @@ def render(trace, lay, upto=None, marks=None):
 
 def err_class(msg):
     m = msg.lower()
+    if "is not continuous" in m:
+        return "not-continuous"
     if "eof" in m:
         return "EOF"
     if "failed to resolve position" in m:
@@ -403,6 +448,8 @@ def classify(trace, lay, k, viol):
         return "C10 %s %s" % (c, "+".join(sorted(viol)))
     if seek_out:
         return "C10 D6 %s after %s positioned outside the bounds" % (c, seek["c"])
+    if "UnexpectedError" in viol and err_class(e.get("err", "")) == "not-continuous":
+        return "C10 D8 %s fails: index distance reports 'not continuous' across adjacent index domains" % c
     if c in ("next", "prev"):
         diff = ("misses samples" if missing and not extra else "returns samples outside the view" if extra and not missing
                 else "misses and adds samples" if missing else "+".join(sorted(viol)))
@@ -410,6 +457,8 @@ def classify(trace, lay, k, viol):
             return "C10 D4 %s after a direction change or automatic step %s" % (c, diff)
         if empty_before:
             return "C10 D3 %s after an earlier sample-free view of the same run %s" % (c, diff)
+        if missing and not extra and any(x["c"] in same for x in since):
+            return "C10 D3 %s after earlier steps of the same run misses samples (domain iterator ran ahead)" % c
         return "C10 %s %s %s" % (c, "+".join(sorted(viol)), diff)
     # automatic steps
     if "UnexpectedError" in viol:
@@ -589,7 +638,10 @@ def series_anomalies(traces):
 
 # ------------------------------------------------------------------ entry points
 def run(ctx):
+    import time
     thorough = ctx.tier == "thorough"
+    t0 = time.time()
+    walls = {}
     # 1. design check
     n, chunks = (5, [1, 2, 3]) if thorough else (4, [1, 2, 3])
     r = ctx.tlc(AREA, "CesiumIter", "mc.cfg", files={"mc.cfg": mc_cfg(n, chunks)}, tag="mc", timeout=3000,
@@ -599,13 +651,16 @@ def run(ctx):
     if r.violated:
         raise vlib.Inconclusive("design spec CesiumIter violates %s: the clauses do not imply the traversal claim" % r.violated)
     states, trans = r.distinct, r.generated
+    walls["design_mc"] = round(time.time() - t0, 1)
     # 2. layouts, 3. command sequences
     T, layouts = gen_layouts(ctx, thorough)
+    walls["layout_scripts"] = round(time.time() - t0, 1)
     maxt = 2 * T + 1
     fams, gst = gen_seqs(ctx, thorough, maxt)
+    walls["command_sequences"] = round(time.time() - t0, 1)
     states += gst[0]
     trans += gst[1]
-    n_layouts, concs_per, runs_per = (60, 3, 100) if thorough else (14, 2, 40)
+    n_layouts, concs_per, runs_per = (100, 3, 110) if thorough else (20, 2, 50)
     jobs = make_jobs(ctx, layouts, fams, maxt, n_layouts, concs_per, runs_per, thorough)
     # 4. record
     summ, lays, traces, wall = run_harness(ctx, jobs, "rec", workers=8 if thorough else 6, timeout=2400)
@@ -618,13 +673,19 @@ def run(ctx):
     if status.get("ok", 0) + status.get("storemismatch", 0) < max(3, len(jobs) // 3):
         raise vlib.Inconclusive("too few usable layouts: %s" % status)
     # 5. validate
+    walls["record"] = round(time.time() - t0, 1)
     res, tstats = validate(ctx, lays, traces)
     states += tstats["distinct"]
     trans += tstats["generated"]
+    walls["trace_validation"] = round(time.time() - t0, 1)
     # 6. judge
     stats = {"layout_status": status, "layouts_distinct_generated": len(layouts), "traces": len(traces),
              "events": summ["events"], "go_wall_s": round(wall, 1), "panics": summ["panics"]}
     judge(ctx, jobs, lays, traces, res, stats)
+    walls["judge_and_rerun"] = round(time.time() - t0, 1)
+    stats["cumulative_wall_s"] = walls
+    if stats.get("not_reproduced") and not ctx.violations and not ctx.known_hits:
+        raise vlib.Inconclusive("clause failures that did not reproduce on a re-run: %s" % "; ".join(ctx.notes[-3:]))
     if status.get("storemismatch") and not ctx.violations and not ctx.known_hits:
         bad = [l for l in lays.values() if l["status"] == "storemismatch"][0]
         raise vlib.Inconclusive("DB.Read differs from the store model (%s) but no iterator clause failed: C01/C04's subject" % bad.get("note", "")[:300])
@@ -644,10 +705,20 @@ def run(ctx):
     lack = [c for c in need if jd.get(c, 0) == 0]
     multi = sum(1 for l in lays.values() if l["status"] in ("ok", "storemismatch") and any(len(l["pointers"][ch]) > 1 for ch in ("D", "V", "I")))
     stats["layouts_multi_domain"] = multi
+    adj = inex = 0
+    for l in lays.values():
+        if l["status"] not in ("ok", "storemismatch"):
+            continue
+        idx = set(x[0] for x in l["samples"]["I"])
+        ps = [l["pointers"][ch] for ch in ("I", "D", "V")]
+        adj += any(a[1] == b[0] for p in ps for a, b in zip(p, p[1:]))
+        inex += any(a[0] not in idx for p in ps for a in p)
+    stats["layouts_with_adjacent_domains"] = adj
+    stats["layouts_with_inexact_domain_start"] = inex
     stats["modes"] = {m: sum(1 for t in traces if t["mode"] == m) for m in ("unary", "stream")}
-    if lack or multi == 0 or jd.get("steps_with_data", 0) == 0 or not stats["modes"]["stream"]:
-        raise vlib.Inconclusive("vacuous run: commands never judged %s, multi-domain layouts %d, stats %s" % (lack, multi, jd))
-    f = abs_fn(lays[traces[0]["layout"]]) if traces else None
+    if lack or multi == 0 or adj == 0 or inex == 0 or jd.get("steps_with_data", 0) == 0 or not stats["modes"]["stream"]:
+        raise vlib.Inconclusive("vacuous run: commands never judged %s, multi-domain layouts %d, adjacent-domain (rollover) layouts %d, "
+                                "inexact-domain-start layouts %d, stats %s" % (lack, multi, adj, inex, jd))
     samples = []
     for tr in traces[:2]:
         samples.append(render(tr, lays[tr["layout"]], upto=6))
